@@ -52,6 +52,11 @@ CLAIMED = {
     'C12': ('Bounded model checking of the interval dynamic programme optimalPartition (and its wiring through optimalSegmentation) on a fully symbolic '
             'cost matrix: on every path the returned partition is proved optimal against all 2^(N-2) enumerated partitions, for both directions.',
             'DESIGN.md#c12', 'N <= 5 candidates fully explored (thorough: N = 6 under budget); costs in [0,100]', ''),
+    'C15': ('Bounded model checking of Filter.execute (through operate(FILTER) on a feature and filter_seq on a coordinate) on symbolic signals with enumerated isolated-NaN patterns: '
+            'window 3 with three symbolic positive weights, catalogue windows 5 and 7, kernel objects with both boundary settings; per index the output is proved to satisfy '
+            'out * sum(w_J) == sum(w_J * x_J) over the in-range non-NaN window positions, boundary values returned unchanged, constants fixed; Kernel.toSlidingWindow of seven built-in kernels with a '
+            'symbolic width proved odd, symmetric and summing to 1 (exp uninterpreted, congruent, positive).',
+            'DESIGN.md#c15', 'signal length 3..4 (quick) / 3..6 (thorough) for window 3; catalogue windows up to 7; kernel width in [1, 2.5]', ''),
     'C16': ('Bounded model checking of simplification, compositionally: distance_to_segment proved to be the true point-segment distance for catalogue chords (incl. the zero-length chord) under '
             'symbolic translation and query point; Douglas-Peucker recursion run with every distance a free symbol and a symbolic tolerance (subsequence, ends kept, every dropped fix closer than the '
             'tolerance to the chord of its kept neighbours, proved per path); end-to-end link on 3 fixes; Visvalingam on symbolic coordinates incl. closed loops (subsequence, ends kept, no exception).',
